@@ -9,6 +9,7 @@ LEAVES = {
     "string": {"type": "string"}, "integer": {"type": "integer"}, "number": {"type": "number"}, "boolean": {"type": "boolean"},
     "array": {"type": "array", "items": {"type": "string"}}, "object": {"type": "object", "properties": {"k": {"type": "string"}}},
     "map": {"type": "object", "additionalProperties": {"type": "number"}},
+    "null": {"type": "null"},
 }
 
 
@@ -16,6 +17,8 @@ def systematic():
     out = []
     for name, leaf in LEAVES.items():
         for pos in ("required", "optional", "nullable", "item", "item2", "definition", "nested", "map-value", "addl-value", "item-ref", "map-ref", "map-ref-nested"):
+            if name == "null" and pos in ("nullable", "definition", "map-value", "addl-value", "item-ref", "map-ref", "map-ref-nested", "nested"):
+                continue
             if pos == "nullable":
                 if name in ("object", "map"):
                     continue
@@ -46,6 +49,10 @@ def systematic():
             else:
                 root = {"type": "object", "properties": {"v": {"type": "array", "items": {"$ref": "#/$defs/L"}}}, "$defs": {"L": leaf}}
             out.append(root)
+    # arrays of null items with and without length limits, nested
+    for lim in ({}, {"minItems": 1}, {"maxItems": 2}, {"minItems": 1, "maxItems": 3}):
+        out.append({"type": "object", "properties": {"v": dict({"type": "array", "items": {"type": "null"}}, **lim)}})
+        out.append({"type": "object", "properties": {"v": dict({"type": "array", "items": dict({"type": "array", "items": {"type": "null"}}, **lim)}, **lim)}, "required": ["v"]})
     return out
 
 
